@@ -185,6 +185,17 @@ def holds(body, blk, pattern, negate=False):
     want = not negate
     for t, pol, g in atoms_at(body, blk):
         if pol is None:
+            # a `match x { K => .., _ => .. }` arm states x == K (or x != K on the default arm)
+            if isinstance(pattern, tuple) and len(pattern) == 4 and pattern[0] == 'bin' and pattern[1] in ('Eq', 'Ne') and t[0] != 'discr':
+                c = core(t)
+                for x, k in ((pattern[2], pattern[3]), (pattern[3], pattern[2])):
+                    if not match(c, x):
+                        continue
+                    isk = lambda v: match(('const', str(v), v), k)
+                    eq = g.values is not None and len(g.values) == 1 and all(isk(v) for v in g.values)
+                    ne = g.excluded is not None and any(isk(v) for v in g.excluded)
+                    if ((pattern[1] == 'Eq') == want and eq) or ((pattern[1] == 'Ne') == want and ne):
+                        return True
             continue
         c = core(t)
         if pol is want and match(c, pattern):
